@@ -212,8 +212,7 @@ func printStats(st *HarnessStats) {
 	}
 	fmt.Println()
 	for _, v := range st.Violations {
-		b, _ := json.Marshal(v.Inputs)
-		fmt.Printf("   VIOL %s kind=%s finding=%q %s inputs=%s\n", v.Assert, v.Kind, v.Finding, v.Msg, b)
+		fmt.Printf("   VIOL %s kind=%s finding=%q %s inputs=%s\n", v.Assert, v.Kind, v.Finding, v.Msg, compactInputs(v.Inputs))
 	}
 }
 
